@@ -26,7 +26,9 @@ TOL = {"mass": 5e-4, "ratio": 5e-3, "norm": 2e-3, "mode": 1e-3, "loc": 2e-3, "va
 
 @st.composite
 def cases(draw, est=None, max_n=20000):
-    fam = draw(st.sampled_from(["normal", "skewnorm", "gamma", "lognormal", "t", "logistic"]))
+    # ("edge" families - added after the third hunt round: samples with a sharp lower edge (half-normal, exponential / gamma k < 3) and
+    # broader log-normals (s up to 0.9) are skewed, moderately heavy-tailed samples too; the first version stopped at gamma k >= 3, s <= 0.5)
+    fam = draw(st.sampled_from(["normal", "skewnorm", "gamma", "lognormal", "t", "logistic", "halfnormal", "gamma-low", "lognormal-wide"]))
     return {"seed": draw(st.integers(0, 2**31)), "family": fam, "estimator": est or draw(st.sampled_from(["kde", "unimodal"])),
             "n": draw(st.sampled_from([300, 1000, 3000, max_n])) if est != "unimodal" else draw(st.sampled_from([300, 1000, 3000, 4000, 9000, 5000])),
             "shape": draw(st.floats(0, 1)), "mirror": draw(st.booleans()),   # mirror: the long tail on the left
@@ -55,6 +57,12 @@ def make_sample(case):
         z = g.gamma(3 + 10 * u, size=n)
     elif fam == "lognormal":
         z = np.exp(g.normal(0, 0.1 + 0.4 * u, size=n))
+    elif fam == "halfnormal":
+        z = np.abs(g.normal(size=n))
+    elif fam == "gamma-low":
+        z = g.gamma(1 + 2 * u, size=n)
+    elif fam == "lognormal-wide":
+        z = np.exp(g.normal(0, 0.5 + 0.4 * u, size=n))
     elif fam == "t":
         z = g.standard_t(5 + 20 * u, size=n)
     else:
@@ -82,7 +90,7 @@ def loc_class(case):
 
 
 def nontrivial(case):
-    return abs(case["loc_sd"]) >= 100 or not (-2 <= case["log_scale"] <= 2) or case["family"] in ("skewnorm", "gamma", "lognormal")
+    return abs(case["loc_sd"]) >= 100 or not (-2 <= case["log_scale"] <= 2) or case["family"] in ("skewnorm", "gamma", "lognormal", "halfnormal", "gamma-low", "lognormal-wide")
 
 
 def pdf_of(est):
@@ -243,7 +251,7 @@ def body_core(case, ctx):
     ctx.event(f"est={kind}")
     ctx.event("family=" + case["family"])
     ctx.event(lc)
-    ctx.event("tail=" + ("left" if case.get("mirror") else "right") if case["family"] in ("skewnorm", "gamma", "lognormal") else "symmetric-family")
+    ctx.event("tail=" + ("left" if case.get("mirror") else "right") if case["family"] in ("skewnorm", "gamma", "lognormal", "halfnormal", "gamma-low", "lognormal-wide") else "symmetric-family")
 
 
 def reference_moments(est, sample, sd, centre, rng_lo, rng_hi):
@@ -302,7 +310,7 @@ def body_moments(case, ctx):
     ctx.nontrivial(nontrivial(case))
     ctx.event(f"est={kind}")
     ctx.event(lc)
-    ctx.event("tail=" + ("left" if case.get("mirror") else "right") if case["family"] in ("skewnorm", "gamma", "lognormal") else "symmetric-family")
+    ctx.event("tail=" + ("left" if case.get("mirror") else "right") if case["family"] in ("skewnorm", "gamma", "lognormal", "halfnormal", "gamma-low", "lognormal-wide") else "symmetric-family")
 
 
 def body_covariance(case, ctx):
@@ -342,7 +350,7 @@ def body_covariance(case, ctx):
     ctx.nontrivial(nontrivial(case))
     ctx.event(f"est={kind}")
     ctx.event(lc)
-    ctx.event("tail=" + ("left" if case.get("mirror") else "right") if case["family"] in ("skewnorm", "gamma", "lognormal") else "symmetric-family")
+    ctx.event("tail=" + ("left" if case.get("mirror") else "right") if case["family"] in ("skewnorm", "gamma", "lognormal", "halfnormal", "gamma-low", "lognormal-wide") else "symmetric-family")
 
 
 SUBCHECKS = [
